@@ -1051,6 +1051,55 @@ func checkClockRebuild(c *Ctx) {
 	} else {
 		c.Undecided("R5.5", "anchor:GoGitRepo.getClock", "repository", "not found")
 	}
+	// the creation of a clock that does not exist yet is atomic with the look-up that missed it
+	if goc := w.Method("repository", "GoGitRepo", "GetOrCreateClock"); goc != nil {
+		c.seeFn(funcName(goc))
+		lw := newLockWorld(w)
+		li := lw.info(goc)
+		var lookup *ssa.Call
+		for _, cl := range Calls(goc) {
+			if cl.Name == "repository.GoGitRepo.getClock" {
+				lookup, _ = cl.Instr.(*ssa.Call)
+			}
+		}
+		var ins *ssa.MapUpdate
+		for _, b := range goc.Blocks {
+			for _, i := range b.Instrs {
+				if mu, ok := i.(*ssa.MapUpdate); ok {
+					if _, fld, isF := loadOfField(mu.Map); isF && fld == "clocks" {
+						ins = mu
+					}
+				}
+			}
+		}
+		if lookup == nil || ins == nil {
+			c.Check(false, "R5.5", "GoGitRepo.GetOrCreateClock:check-and-create-atomic", w.FnPos(goc), "", "look-up through getClock or insertion into the clocks map not found")
+		} else {
+			c.Sites++
+			base, _, _ := loadOfField(ins.Map)
+			mkey := valueKey(base) + ".clocksMutex"
+			ok := li.holds(lookup, mkey, true) && li.holds(ins, mkey, true)
+			why := "the look-up or the insertion runs without " + mkey + " held for writing"
+			if ok {
+				for _, cl := range Calls(goc) {
+					if op, isOp := asLockOp(cl.Instr.Common()); isOp && op.Delta < 0 && op.Key == mkey {
+						if _, isDefer := cl.Instr.(*ssa.Defer); isDefer {
+							continue
+						}
+						a, _, _ := pathSearch(goc, lookup, nil, func(i ssa.Instruction) bool { return i == cl.Instr }, func(i ssa.Instruction) bool { return i == ssa.Instruction(ins) }, false)
+						b2, _, _ := pathSearch(goc, cl.Instr, nil, func(i ssa.Instruction) bool { return i == ssa.Instruction(ins) }, nil, false)
+						if a && b2 {
+							ok, why = false, "the mutex is released at "+w.InstrPos(cl.Instr)+" between the look-up that missed the clock and its insertion"
+						}
+					}
+				}
+			}
+			c.Check(ok, "R5.5", "GoGitRepo.GetOrCreateClock:check-and-create-atomic", w.InstrPos(ins), "look-up and insertion under one hold of "+mkey,
+				why+": two goroutines using a clock that does not exist yet each create their own instance starting at 1 — the same time is handed out twice and a witnessed time is forgotten")
+		}
+	} else {
+		c.Undecided("R5.5", "anchor:GoGitRepo.GetOrCreateClock", "repository", "not found")
+	}
 	if mw := w.Method("util/lamport", "MemClock", "Witness"); mw != nil {
 		okRetry, n := true, 0
 		for _, cl := range CallsNamed(mw, "sync/atomic.CompareAndSwapUint64") {
